@@ -625,6 +625,8 @@ def r13_no_pull_after_handover(ctx, rule='R13h'):
                     handed.add(v.id)
                 elif isinstance(v, ast.Call):
                     handed |= {a.id for a in list(v.args) + [k.value for k in v.keywords] if isinstance(a, ast.Name)}
+                elif isinstance(v, ast.GeneratorExp):
+                    handed |= {g.iter.id for g in v.generators if isinstance(g.iter, ast.Name)}     # yield (row for row in rows)
                 if not handed:
                     continue
                 # a name that holds the wrapper of a handed stream is the same stream: w = wrap(s); yield w
